@@ -74,6 +74,9 @@ def make_rec_observer(ctx):
 
         def increment_completed(self, *, section, scope):
             ctx.log("p_completed", sec=section, sc=repr(scope))
+            hook = getattr(ctx, "on_completed", None)
+            if hook and section == "run":
+                hook()
 
         def increment_failed(self, *, section, scope, exception):
             ctx.log("p_failed", sec=section, sc=repr(scope), xt=type(exception).__name__)
@@ -123,6 +126,7 @@ def execute(task):
 
         ctx.on_start = snap
         ctx.on_end = snap
+        ctx.on_completed = lambda: snap(0, 0)
     else:
         factory = None
     b = S.build(scn, ctx, factory)
